@@ -234,7 +234,7 @@ OK = "rcase_ok"
 
 # ---------------------------------------------------------------- shared driver for the run-based checks
 def krun(chk, pid: str, grammar_texts: list[str], inputs_for, configs=("q1",), call_invalid=False, shard=8,
-         per_input_limit=0.5, want_cases=True):
+         per_input_limit=0.5, want_cases=True, unreachable=None):
     """Runs the real parsers (traced) and, if want_cases, the Coq model on the same cases.
     Returns [(grammar text, runner result)] for the property-specific oracle of the caller."""
     import tables
@@ -249,7 +249,7 @@ def krun(chk, pid: str, grammar_texts: list[str], inputs_for, configs=("q1",), c
     rc, out = common.coqc(d / "Tables.v")
     chk.oblige(f"extracted tables compile (coq/gen/{pid}/Tables.v)", rc == 0, out[-2000:])
     jobs = [{"grammar": t, "inputs": inputs_for(t), "configs": list(configs), "call_invalid": call_invalid,
-             "limit": per_input_limit} for t in grammar_texts]
+             "limit": per_input_limit, "unreachable": unreachable} for t in grammar_texts]
     results = run_traced(jobs)
     cases, descs, pairs = [], [], []
     for t, rj in zip(grammar_texts, results):
